@@ -3,8 +3,10 @@
 
 pub mod args;
 pub mod direction;
+pub mod features;
 pub mod history;
 pub mod inputs;
+pub mod macros;
 pub mod matches;
 pub mod metamorphic;
 pub mod universe;
@@ -12,6 +14,8 @@ pub mod values;
 #[cfg(feature = "likelysubtags")]
 pub mod likely;
 pub mod selftest;
+#[cfg(feature = "serde")]
+pub mod serde_check;
 pub mod subtags;
 #[cfg(all(unic_locale_verif, feature = "likelysubtags"))]
 pub mod tables;
@@ -38,9 +42,13 @@ pub fn run(ctx: &Ctx) -> Option<Report> {
         "C13" => inputs::run_c13(ctx),
         "C14" => direction::run_c14(ctx),
         "C15" => subtags::run_c15(ctx),
+        "C16" => macros::run_c16(ctx),
         "C17" => values::run_c17(ctx),
         #[cfg(all(unic_locale_verif, feature = "likelysubtags"))]
         "C18" => tables::run_c18(ctx),
+        #[cfg(feature = "serde")]
+        "C19" => serde_check::run_c19(ctx),
+        "C20" => features::run_c20(ctx),
         _ => return None,
     })
 }
@@ -82,6 +90,8 @@ pub fn replay_case(_ctx: &Ctx, sub: &'static str, case: &Case) -> Vec<(String, S
                 "c13" => vec![&inputs::check_c13],
                 "c15" => vec![&subtags::check_c15],
                 "c17" => vec![&subtags::check_raw_roundtrip, &values::check_c17_input],
+                #[cfg(feature = "serde")]
+                "c19" => vec![&serde_check::check_c19],
                 _ => vec![],
             };
             for f in fs {
